@@ -483,7 +483,11 @@ def run(rep):
     tier, rng = rep.tier, Rng(rep.seed)
     cov = rep.cov
     broken = []
-    po = common.proof_obligations(PROP_FILES)
+    # translator: the pure arithmetic/bit-level functions are regenerated from the Rust source on every run and must
+    # still equal the hand model (Properties/*Gen.v)
+    import rust2coq
+    translator, gen_files = rust2coq.step(["limiter"], ["theories/Properties/C15Gen.v"], broken)
+    po = common.proof_obligations(PROP_FILES + gen_files)
     if not po["ok"]:
         broken.append("Coq obligations of Properties/C15.v: " + (po["log_tail"] or str(po["hygiene_problems"] or po["bad_axioms"])))
     ok, out = common.cargo_build(["limiter", "limiter_mux", "limiter_rpc"], "dev")
@@ -638,7 +642,8 @@ def run(rep):
             "H-ATOM: tokio Mutex is FIFO-fair, watch::Sender::send_modify / wait_for critical sections and std Mutex sections are atomic (the grain of the step relation)",
             "ctx::ManualClock is the clock (the real clock enters only through ctx.now() / sleep_until_deadline); clock readings stay below the overflow point of time::Instant",
             "RPC half: the StreamQueue model (permit per OPEN) is tied to mux/reusable_stream.rs by trace acceptance of real Mux runs (hooks VMux/VQueue); rpc::Server::serve is driven through the hook verif::rpc (VRpc<N>, ping wire messages) and its handler traces are accepted by the same model",
-        ]),
+        ] + translator["trusted"]),
+        "translator": translator,
         "theorems": po["theorems"], "axioms": po["axioms"],
         "evaluations": len(cases) + len(mcases) + len(rcases),
         "rpc_cases": len(rcases), "rpc_handler_starts": rpc_starts, "rpc_traces": len(rtraces), "rpc_traces_accepted_by_model": len(rtraces) - len(rmm),
